@@ -390,6 +390,10 @@ def expr(n):
             return '(.isNotNone %s)' % expr(n.left)
         if type(op) not in CMPOPS:
             raise Unsupported(type(op).__name__)
+        if isinstance(op, ast.In) and isinstance(n.left, ast.Constant) and isinstance(n.left.value, str):
+            # `'name' in mapping`: membership of a STRING in a container that is not a list literal of scalars (the only thing the
+            # interpreter's `isIn` decides) - dumped as the container's `__contains__`, resolved by the `Meths` of the theorem
+            return '(.call "__contains__" %s)' % args([r, n.left])
         return '(.cmp .%s %s %s)' % (CMPOPS[type(op)], expr(n.left), expr(r))
     if isinstance(n, ast.IfExp):
         return '(.ifexp %s %s %s)' % (expr(n.test), expr(n.body), expr(n.orelse))
